@@ -561,6 +561,21 @@ QUERY_TIMEOUT_MS = 20000
 PARANOID = bool(os.environ.get("SYMX_PARANOID"))
 
 
+def _parse_smt_real(v: str):
+    """'3', '3.0', '(- 3)', '(/ 1 2)', '(- (/ 1 2))' -> Fraction | None"""
+    v = v.strip()
+    try:
+        if v.startswith("(-"):
+            inner = _parse_smt_real(v[2:-1])
+            return None if inner is None else -inner
+        if v.startswith("(/"):
+            a, b = v[2:-1].split()
+            return Fraction(a.split(".")[0] if a.endswith(".0") else a) / Fraction(b.split(".")[0] if b.endswith(".0") else b)
+        return Fraction(v)
+    except Exception:
+        return None
+
+
 def _val_to_str(v) -> str:
     if z3.is_algebraic_value(v):
         return "alg:" + v.approx(30).as_string()
@@ -718,11 +733,16 @@ class Ctx:
             plan = [("default", full), ("default2", full), ("presolve", 3 * full)]
         elif kinds <= {"real"}:
             short = min(2500, full)
-            plan = [("pnra", short), ("nra", short), ("default", short),
+            plan = [("pnra", short), ("nra", short), ("default", short), ("cvc5", full),
                     ("pnra", full), ("nra", full), ("default", full)]
         else:
             plan = [("default", full)]
         for tac, tmo in plan:
+            if tac == "cvc5":
+                r = self._cvc5(conj, extra, names, want_model, tmo)
+                if r[0] != "unknown":
+                    return r
+                continue
             if tac == "nra":
                 s = z3.SolverFor("QF_NRA")
             elif tac == "pnra":
@@ -766,6 +786,69 @@ class Ctx:
         self.stats.unknown += 1
         self.notes.append("unknown: %d conjuncts, extra %s" % (len(conj), str(extra[0])[:200] if extra else ""))
         return "unknown", None
+
+    def _cvc5(self, conj, extra, names, want_model, tmo_ms):
+        """Last resort for polynomial real slices on which every z3 strategy gave up: the
+        cvc5 binary (its cylindrical-algebraic-coverings procedure decides in under a second
+        some unsat slices that cost z3's nlsat a minute).  A second solver, same formula."""
+        import re
+        import subprocess
+        import tempfile
+        exe = "/usr/bin/cvc5"
+        if not os.path.exists(exe):
+            return "unknown", None
+        s = z3.Solver()
+        for c in conj:
+            s.add(c.e)
+        for e in extra:
+            s.add(e)
+        body = "\n".join(l for l in s.to_smt2().splitlines() if not l.startswith("(set-info") and l.strip() != "(check-sat)")
+        text = "(set-logic QF_NRA)\n(set-option :produce-models true)\n" + body + "\n(check-sat)\n(get-model)\n"
+        t0 = _time.time()
+        try:
+            with tempfile.NamedTemporaryFile("w", suffix=".smt2", delete=True) as f:
+                f.write(text)
+                f.flush()
+                out = subprocess.run([exe, "--tlimit=%d" % int(tmo_ms), f.name], capture_output=True,
+                                     text=True, timeout=tmo_ms / 1000.0 + 10).stdout
+        except Exception:
+            return "unknown", None
+        finally:
+            self.stats.queries += 1
+            self.stats.solver_s += _time.time() - t0
+        head = out.strip().splitlines()[0].strip() if out.strip() else ""
+        self.stats.__dict__["cvc5"] = self.stats.__dict__.get("cvc5", 0) + 1
+        if head == "unsat":
+            self.stats.unsat += 1
+            return "unsat", None
+        if head != "sat":
+            return "unknown", None
+        self.stats.sat += 1
+        if not want_model:
+            return "sat", None
+        vals = {}
+        for m in re.finditer(r"\(define-fun\s+(\S+)\s+\(\)\s+Real\s+(.+?)\)\s*$", out, re.M):
+            name, v = m.group(1).strip("|"), m.group(2).strip()
+            fr = _parse_smt_real(v)
+            if fr is None:
+                return "unknown", None
+            vals[name] = fr
+        outm = {}
+        for n in names:
+            if n not in vals:
+                return "unknown", None
+            outm[n] = z3.RealVal(str(vals[n]))
+        # trust, but verify: the model must satisfy the query
+        mm = z3.Model()
+        for n, v in outm.items():
+            mm.update_value(self.vars[n], v)
+        for c in conj:
+            if not z3.is_true(z3.simplify(mm.eval(c.e, model_completion=True))):
+                return "unknown", None
+        for e in extra:
+            if not z3.is_true(z3.simplify(mm.eval(e, model_completion=True))):
+                return "unknown", None
+        return "sat", outm
 
     def _eval(self, e):
         """Evaluate a Bool/Real term under the carried model -> z3 value or None."""
